@@ -94,7 +94,17 @@ func (c *wsConnection) subscribe(ctx context.Context, id string, req *common.Req
 	c.subs[id] = handler
 	c.subsMu.Unlock()
 
-	subscribeCtx, subscribeCancel := context.WithTimeout(ctx, c.writeTimeout)
+	// The subscriber's context must not reach the websocket write: the websocket
+	// library closes the whole connection when the context of a write ends, which
+	// would fail every other subscription multiplexed on this connection. A
+	// subscriber that is already gone is turned away here; the write itself is
+	// bounded by the write timeout only.
+	if err := ctx.Err(); err != nil {
+		c.removeSub(id)
+		return nil, err
+	}
+
+	subscribeCtx, subscribeCancel := context.WithTimeout(context.WithoutCancel(ctx), c.writeTimeout)
 	defer subscribeCancel()
 
 	verifYield("ws.subscribe.beforeWrite", id)
